@@ -148,6 +148,10 @@ func (b *prefixBatch) Put(key, value []byte) error {
 }
 
 func (b *prefixBatch) Write() error {
+	if err := simPreWrite(b.db, "batch"); err != nil {
+		return err
+	}
+	defer simPostWrite(b.db, "batch")
 	return b.db.Write(b.b, nil)
 }
 
